@@ -25,6 +25,12 @@
 //!   or client before server.  Every generation must be that of a fresh builder with the options
 //!   then in force.
 //! * `mx` — `manual::Builder::compile` on SEVERAL services in one call (one output file each).
+//! * `cseq` — the COMPILED generated clients of the build-time pool, made by every public
+//!   constructor (`new`, `with_origin` without a path / with the path `/`, `with_interceptor`, the
+//!   compression and size-limit setters, a clone of a dropped original) and used for SEVERAL calls
+//!   (different methods of the service): on the same value, on fresh clones, on a clone taken after
+//!   the first use, concurrently.  A tap between client and router records for every call the path
+//!   and the `GrpcMethod` extension the client put on the request.
 //! * `cmt` — the committed generated files themselves, judged against their own committed
 //!   descriptor sets (`FILE_DESCRIPTOR_SET` of tonic-health / tonic-reflection).
 use super::*;
@@ -894,6 +900,158 @@ fn run_mx(t: &[&str]) -> String {
 }
 
 // ---------------------------------------------------------------------------------------------
+// cseq: compiled generated clients, constructors × call histories
+
+/// What the generated client put on one request: (call tag, path, GrpcMethod service, method).
+type TapRec = std::sync::Arc<std::sync::Mutex<Vec<(String, String, String, String)>>>;
+
+/// Sits between the generated client and the router; forwards untouched.
+#[derive(Clone)]
+pub struct Tap {
+    inner: tonic::service::Routes,
+    rec: TapRec,
+}
+
+impl tower_service::Service<http::Request<tonic::body::Body>> for Tap {
+    type Response = http::Response<tonic::body::Body>;
+    type Error = std::convert::Infallible;
+    type Future = <tonic::service::Routes as tower_service::Service<http::Request<tonic::body::Body>>>::Future;
+    fn poll_ready(&mut self, cx: &mut std::task::Context<'_>) -> std::task::Poll<Result<(), Self::Error>> {
+        tower_service::Service::<http::Request<tonic::body::Body>>::poll_ready(&mut self.inner, cx)
+    }
+    fn call(&mut self, req: http::Request<tonic::body::Body>) -> Self::Future {
+        let k = req.headers().get("x-k").and_then(|v| v.to_str().ok()).unwrap_or("-").to_string();
+        let (gs, gm) = match req.extensions().get::<tonic::GrpcMethod<'static>>() {
+            Some(g) => (g.service().to_string(), g.method().to_string()),
+            None => ("none".to_string(), "none".to_string()),
+        };
+        let target = match req.uri().query() {
+            Some(q) => format!("{}?{}", req.uri().path(), q),
+            None => req.uri().path().to_string(),
+        };
+        self.rec.lock().unwrap().push((k, target, gs, gm));
+        self.inner.call(req)
+    }
+}
+
+/// the request of call number `k` of a sequence
+pub fn tagged<T>(msg: T, k: usize) -> tonic::Request<T> {
+    let mut r = tonic::Request::new(msg);
+    r.metadata_mut().insert("x-k", k.to_string().parse().unwrap());
+    r
+}
+
+/// All futures are polled (the last one first) before any answer is taken.
+pub async fn join_all<F: std::future::Future>(mut futs: Vec<std::pin::Pin<Box<F>>>) -> Vec<F::Output> {
+    let mut outs: Vec<Option<F::Output>> = futs.iter().map(|_| None).collect();
+    std::future::poll_fn(|cx| {
+        let mut pending = false;
+        for (i, f) in futs.iter_mut().enumerate().rev() {
+            if outs[i].is_none() {
+                match f.as_mut().poll(cx) {
+                    std::task::Poll::Ready(v) => outs[i] = Some(v),
+                    std::task::Poll::Pending => pending = true,
+                }
+            }
+        }
+        if pending {
+            std::task::Poll::Pending
+        } else {
+            std::task::Poll::Ready(())
+        }
+    })
+    .await;
+    outs.into_iter().map(|o| o.unwrap()).collect()
+}
+
+#[allow(clippy::all)]
+pub mod cpool {
+    include!(concat!(env!("OUT_DIR"), "/c11x_pool.rs"));
+}
+
+const CTORS: [&str; 6] = ["new", "origin", "origin-slash", "icept", "conf", "cloned"];
+const MODES: [&str; 4] = ["same", "clones", "clone-used", "conc"];
+
+fn cseq_line(ctor: &str, mode: &str, wrap: Wrap, reg: &[usize], i: usize, js: &[usize]) -> String {
+    let mut s = format!("cseq {} {} {} {}", ctor, mode, wrap.token(), reg.len());
+    for &r in reg {
+        s.push(' ');
+        s.push_str(&pool_block(r));
+    }
+    s.push_str(&format!(" target {} {}", pool_block(i), js.len()));
+    for j in js {
+        s.push_str(&format!(" {j}"));
+    }
+    s
+}
+
+fn run_cseq(t: &[&str]) -> String {
+    // cseq <ctor> <mode> <wrap> <n> {pool block}^n target <pool block> <ncalls> {j}^ncalls
+    if t.len() < 5 {
+        return "bad-case".into();
+    }
+    let (ctor, mode) = (t[1], t[2]);
+    if !CTORS.contains(&ctor) || !MODES.contains(&mode) {
+        return "bad-case".into();
+    }
+    let Some(wrap) = Wrap::parse(t[3]) else { return "bad-case".into() };
+    let Ok(n) = t[4].parse::<usize>() else { return "bad-case".into() };
+    let mut pos = 5;
+    let mut regv = Vec::new();
+    for _ in 0..n {
+        let Some((i, used)) = take_pool_block(&t[pos..]) else { return "bad-case".into() };
+        regv.push(i);
+        pos += used;
+    }
+    if t.get(pos) != Some(&"target") {
+        return "bad-case".into();
+    }
+    pos += 1;
+    let Some((ti, used)) = take_pool_block(&t[pos..]) else { return "bad-case".into() };
+    pos += used;
+    let Some(Ok(nc)) = t.get(pos).map(|x| x.parse::<usize>()) else { return "bad-case".into() };
+    pos += 1;
+    if t.len() != pos + nc || nc == 0 || nc > 40 {
+        return "bad-case".into();
+    }
+    let mut calls: Vec<(usize, pool::Req)> = Vec::new();
+    for (k, x) in t[pos..].iter().enumerate() {
+        let Ok(j) = x.parse::<usize>() else { return "bad-case".into() };
+        if j >= POOL[ti].2.len() {
+            return "bad-case".into();
+        }
+        calls.push((j, "x".repeat(k + 1)));
+    }
+    let h = Handler::default();
+    let Some(mut reg) = Reg::new("routes") else { return "bad-case".into() };
+    for &i in &regv {
+        pool::add(&mut reg, i, wrap, h.clone());
+    }
+    let Built::Routes(routes) = reg.finish() else { return "bad-case".into() };
+    let rec: TapRec = Default::default();
+    let tap = Tap { inner: routes, rec: rec.clone() };
+    let rt = tokio::runtime::Builder::new_current_thread().enable_all().build().unwrap();
+    let res = rt.block_on(cpool::client_seq(ti, ctor, mode, &calls, tap));
+    let recs = rec.lock().unwrap().clone();
+    let mut out = vec![format!("calls {}", res.len())];
+    for (k, r) in res.iter().enumerate() {
+        let seen: Vec<&(String, String, String, String)> = recs.iter().filter(|x| x.0 == k.to_string()).collect();
+        let head = match seen.as_slice() {
+            [x] => format!("{} {} {}", tok(&x.1), tok(&x.2), tok(&x.3)),
+            [] => "- - -".to_string(),
+            _ => "multiple multiple multiple".to_string(),
+        };
+        out.push(match r {
+            Ok(v) => format!("{head} ok {} {}", v.len(), v.iter().map(|x| x.to_string()).collect::<Vec<_>>().join(" ")).trim_end().to_string(),
+            Err(st) => format!("{head} err {}", st.code() as i32),
+        });
+    }
+    // every request the tap saw belongs to a call of the sequence
+    out.push(format!("seen {}", recs.len()));
+    out.join(" ")
+}
+
+// ---------------------------------------------------------------------------------------------
 // cmt: the committed generated files against their own committed descriptor sets
 
 fn cmt_sources() -> [(&'static str, &'static str, &'static [u8]); 3] {
@@ -1259,6 +1417,34 @@ pub(super) fn generate_x(tier: &str, rng: &mut Rng) -> Vec<String> {
         }
         out.push(format!("mx {} {} {} {}", fl(rng.chance(1, 2)), *rng.pick(&SIDES), blocks.len(), blocks.join(" ")));
     }
+    // ---- cseq: compiled generated clients, constructors × call histories
+    let n = POOL.len();
+    let all: Vec<usize> = (0..n).collect();
+    for i in 0..n {
+        let nm = POOL[i].2.len();
+        let every: Vec<usize> = (0..nm).chain((0..nm).rev()).collect();
+        for (ci, ctor) in CTORS.iter().enumerate() {
+            let mode = MODES[(i + ci) % MODES.len()];
+            out.push(cseq_line(ctor, mode, Wrap::ALL[(i + ci) % 4], &all, i, &every));
+        }
+        for mode in MODES {
+            out.push(cseq_line("new", mode, Wrap::Probe, &[i], i, &every));
+        }
+    }
+    let ncs = if thorough { 6000 } else { 150 };
+    for _ in 0..ncs {
+        let k = 1 + rng.below(n as u64) as usize;
+        let mut order = all.clone();
+        for x in (1..order.len()).rev() {
+            let y = rng.below(x as u64 + 1) as usize;
+            order.swap(x, y);
+        }
+        order.truncate(k);
+        let i = if rng.chance(5, 6) { *rng.pick(&order) } else { rng.below(n as u64) as usize };
+        let nc = 1 + rng.below(8) as usize;
+        let js: Vec<usize> = (0..nc).map(|_| rng.below(POOL[i].2.len() as u64) as usize).collect();
+        out.push(cseq_line(*rng.pick(&CTORS), *rng.pick(&MODES), *rng.pick(&Wrap::ALL), &order, i, &js));
+    }
     out
 }
 
@@ -1269,6 +1455,7 @@ pub(super) fn execute_x(t: &[&str]) -> Option<String> {
         "gseq" => run_gseq(t),
         "mx" => run_mx(t),
         "cmt" => run_cmt(t),
+        "cseq" => run_cseq(t),
         _ => return None,
     })
 }
